@@ -12,6 +12,7 @@ import (
 	empty "github.com/golang/protobuf/ptypes/empty"
 	hclog "github.com/hashicorp/go-hclog"
 	"github.com/hashicorp/go-plugin/internal/plugin"
+	"github.com/hashicorp/go-plugin/verifhook"
 	"google.golang.org/grpc"
 	"google.golang.org/grpc/codes"
 	"google.golang.org/grpc/status"
@@ -75,6 +76,7 @@ func (s *grpcStdioServer) StreamStdio(
 			continue
 		}
 
+		verifhook.Point("grpcstdio.chunk")
 		// Send our data to the client.
 		if err := srv.Send(&data); err != nil {
 			return err
